@@ -85,6 +85,10 @@ def gen_stereo_mol(R, nunits, extra):
     protected = set()      # atoms that must keep single bonds only (ligands) / no further multiple bonds (anchors)
     ligands = set()
 
+    def lig_elem():
+        # now and then the marked substituent is an explicitly written hydrogen
+        return 'H' if R.chance(0.12) else R.choice(LIG_ELEMS)
+
     def new_unit(attach, share=False):
         a = m.add_atom('C')
         b = m.add_atom('C')
@@ -94,16 +98,30 @@ def gen_stereo_mol(R, nunits, extra):
         if share:
             la = attach          # one atom is the marked substituent of two double bonds (skipped diene)
         else:
-            la = m.add_atom(R.choice(LIG_ELEMS))
+            la = m.add_atom(lig_elem())
             m.add_bond(a, la, 1)
-        lb = m.add_atom(R.choice(LIG_ELEMS))
+        if R.chance(0.2):
+            # conjugated diene: the second double bond starts at the substituent position of the first;
+            # the single bond between them carries one mark that serves both double bonds
+            a2 = m.add_atom('C')
+            b2 = m.add_atom('C')
+            m.add_bond(b, a2, 1)
+            m.add_bond(a2, b2, 2)
+            lb2 = m.add_atom(lig_elem())
+            m.add_bond(b2, lb2, 1)
+            protected.update((a, b, la, a2, b2, lb2))
+            ligands.update((la, lb2))
+            stereo.append(dict(a=a, b=b, la=la, lb=a2, rel=R.choice(['cis', 'trans'])))
+            stereo.append(dict(a=a2, b=b2, la=b, lb=lb2, rel=R.choice(['cis', 'trans'])))
+            return
+        lb = m.add_atom(lig_elem())
         m.add_bond(b, lb, 1)
         protected.update((a, b, la, lb))
         ligands.update((la, lb))
         stereo.append(dict(a=a, b=b, la=la, lb=lb, rel=R.choice(['cis', 'trans'])))
     new_unit(None)
     for _ in range(nunits - 1):
-        shared = [i for i in sorted(ligands) if m.free(i) >= 1 and m.atoms[i]['element'] in ('C', 'N')]
+        shared = [i for i in sorted(ligands) if m.atoms[i]['element'] in ('C', 'N') and m.free(i) >= 1]
         if shared and R.chance(0.4):
             new_unit(R.choice(shared), share=True)
             continue
@@ -180,31 +198,62 @@ def gen(R, tier):
     for v in range(4):
         owner = [0] * len(m.atoms) if v == 0 else partition_keep(R, m, stereo, R.choice([2, 3, 4]))
         slash = {}
+        second_marks = []
+        all_ligs = {s_[k] for s_ in stereo for k in ('la', 'lb')}
         for s in stereo:
-            sa = R.choice([1, -1])
-            sb = sa if s['rel'] == 'cis' else -sa
-            slash[frozenset((s['la'], s['a']))] = (s['la'], sa)
-            slash[frozenset((s['lb'], s['b']))] = (s['lb'], sb)
+            ka, kb = frozenset((s['la'], s['a'])), frozenset((s['lb'], s['b']))
+            if ka in slash:
+                # the bond already carries the mark of a conjugated neighbour double bond, seen from
+                # its other end: the same mark puts this end on the opposite side
+                lig0, side0 = slash[ka]
+                sa = side0 if lig0 == s['la'] else -side0
+            else:
+                sa = R.choice([1, -1])
+                slash[ka] = (s['la'], sa)
+            if kb in slash:
+                lig0, side0 = slash[kb]
+                sb = side0 if lig0 == s['lb'] else -side0
+            else:
+                sb = sa if s['rel'] == 'cis' else -sa
+                slash[kb] = (s['lb'], sb)
+            s['rel_v'] = 'cis' if sa == sb else 'trans'
+            # the second substituent of an atom of the double bond may carry a (redundant, consistent)
+            # mark as well: it sits on the other side than the marked one
+            for anc, other, lig, side in ((s['a'], s['b'], s['la'], sa), (s['b'], s['a'], s['lb'], sb)):
+                for x in m.nbrs(anc):
+                    if x in (other, lig) or x in tagged or frozenset((x, anc)) in slash:
+                        continue
+                    plain = all(m.order(x, y) == 1 for y in m.nbrs(x)) and not m.atoms[x]['aromatic'] and \
+                        all(all(m.order(y, z) == 1 for z in m.nbrs(y)) for y in m.nbrs(x) if y != anc)
+                    if plain and R.chance(0.3):
+                        slash[frozenset((x, anc))] = (x, -side)
+                        second_marks.append(x)
+        assert all(s['rel_v'] == s['rel'] for s in stereo)
         text, info = molgen.build_cgsmiles(R, m, owner, kinds=('$', '><'), style=molgen.style_draw(R),
                                            annot={i: 'x=%s' % c for i, c in chir.items()}, slash=slash)
         if text is None:
             continue
-        # an atom that is the marked substituent of two double bonds keeps ONE mark per atom in the
-        # reader's data model (as in pysmiles): renderings in which its two marks differ are read
-        # consistently for every fragmentation, but not with the relation the generator drew, so
-        # they cannot be compared with the ground truth and are outside the domain of this oracle
+        # the reader (like pysmiles) keeps ONE mark per atom: the last one written next to it. For every
+        # marked substituent the mark on the bond to its own double bond must therefore be the one the atom
+        # ends up with (or all marks next to it are equal); other renderings are read consistently for
+        # every fragmentation but not with the relation the generator drew, so they cannot be compared
+        # with the ground truth and are outside the domain of this oracle
         conflict = False
-        ligs = [s_[k] for s_ in stereo for k in ('la', 'lb')]
-        for L in {x for x in ligs if ligs.count(x) > 1}:
-            marks = {t for (u, w, t) in info['slashes'] if L in (u, w)}
-            if len(marks) > 1:
-                conflict = True
+        last_mark = {}
+        for (u, w, t) in info['slashes']:
+            last_mark[u] = t
+            last_mark[w] = t
+        on_bond = {frozenset((u, w)): t for (u, w, t) in info['slashes']}
+        for s_ in stereo:
+            for L, A in ((s_['la'], s_['a']), (s_['lb'], s_['b'])):
+                if last_mark.get(L) != on_bond.get(frozenset((L, A))):
+                    conflict = True
         if conflict:
             dropped += 1
             continue
         cut_at_double = [owner[s['a']] != owner[s['b']] for s in stereo]
         variants.append(dict(input=text, posmap={str(i): list(p) for i, p in info['posmap'].items()}, nfr=info['nfr'],
-                             cut_at_double=any(cut_at_double)))
+                             cut_at_double=any(cut_at_double), second_marks=len(second_marks)))
     if not variants:
         return None
     feats = {'stereo:%d' % min(len(stereo), 3), 'chiral:%d' % min(len(chir), 3)}
@@ -212,9 +261,16 @@ def gen(R, tier):
         feats.add('cut_at_double_bond')
     if any(v['nfr'] >= 2 for v in variants):
         feats.add('multi_fragment')
+    if any(v.get('second_marks') for v in variants):
+        feats.add('both_substituents_of_an_atom_marked')
     ligs = [s_[k] for s_ in stereo for k in ('la', 'lb')]
     if len(set(ligs)) < len(ligs):
         feats.add('substituent_shared_by_two_double_bonds')
+    anchors = {s_[k] for s_ in stereo for k in ('a', 'b')}
+    if anchors & set(ligs):
+        feats.add('conjugated_diene')
+    if any(m.atoms[x]['element'] == 'H' for x in ligs):
+        feats.add('explicit_hydrogen_substituent')
     if dropped:
         feats.add('variant_dropped:conflicting_marks_on_shared_substituent')
     return dict(input=variants[-1]['input'], variants=variants, stereo=stereo, chir={str(k): v for k, v in chir.items()},
